@@ -129,8 +129,8 @@ def _q(s):
 
 
 def _fdpath(s):
-    """`3</a/b>` or `AT_FDCWD</cwd>` -> '/a/b' ; ' (deleted)' suffix dropped."""
-    m = re.match(r"^(?:-?\d+|AT_FDCWD)<(.*)>$", s)
+    """`3</a/b>`, `3</a/b>(deleted)` or `AT_FDCWD</cwd>` -> '/a/b'."""
+    m = re.match(r"^(?:-?\d+|AT_FDCWD)<(.*)>(?:\(deleted\))?$", s)
     if not m:
         return None
     p = m.group(1)
